@@ -366,8 +366,76 @@ func runC16Dir(ctx *core.Ctx, idx int, ft fault) *core.Result {
 	return res
 }
 
+// c16LibraryProbe: the library half of "a failure is always reported". One parsed patch is applied to several files; a file
+// on which the only matching change cannot be carried out gives an error (never its input with a nil error), whatever the
+// other files of the loop do, and the command line fails for the same file.
+func c16LibraryProbe(ctx *core.Ctx, res *core.Result, idx int) {
+	r := ctx.Rand("c16lib", idx)
+	failing := [][2]string{
+		{"@@\nvar x, y expression\n@@\n-tgtFail(x)\n+replFail(x, y)\n", "tgtFail(1)"},
+		{"@@\nvar n, y expression\n@@\n-var _ = tgtPair(n, y)\n+var n = y\n", "var _ = tgtPair(1+1, 2)"},
+		{"@@\nvar x expression\n@@\n-getField(x)\n+cfg.x\n", "var _ = getField(a + b)"},
+	}
+	fc := failing[r.Intn(len(failing))]
+	other := "@@\nvar x expression\n@@\n-bump(x)\n+bump(x + 1)\n"
+	pt := fc[0]
+	order := r.Intn(3)
+	switch order {
+	case 1:
+		pt = other + "\n" + fc[0]
+	case 2:
+		pt = fc[0] + "\n" + other
+	}
+	site := fc[1]
+	if !strings.HasPrefix(site, "var ") {
+		site = "func fails() {\n\t" + site + "\n}"
+	}
+	files := []struct {
+		src     string
+		wantErr bool
+	}{
+		{"package a\n\n" + site + "\n", true},
+		{"package a\n\nfunc ok() int {\n\treturn bump(1)\n}\n", false},
+		{"package a\n\nfunc nothing() {}\n", false},
+		{"package a\n\n" + site + "\n\nfunc alsoOK() int {\n\treturn bump(2)\n}\n", true},
+	}
+	pf, perr, pan := core.ParsePatch("p.patch", []byte(pt))
+	if perr != nil || pan != "" {
+		res.Inconcl++
+		res.Ob("inconclusive:library-probe-patch-rejected", 1)
+		return
+	}
+	for i, f := range files {
+		if !gen.Parses(f.src) {
+			continue
+		}
+		out, err, pan := core.ApplyParsed(pf, fmt.Sprintf("f%d.go", i), []byte(f.src))
+		res.Evals++
+		res.Ob("library-probe-applies", 1)
+		res.Sig("library-probe", fc[1], order, i)
+		rep := map[string]string{"p.patch": pt, "in.go": f.src, "out.go": string(out)}
+		switch {
+		case pan != "":
+			res.Violate("C16/engine-panic:"+core.PanicSignature(pan), pan, rep)
+			return
+		case f.wantErr && err == nil:
+			res.Violate("C16/failure-not-reported/library", fmt.Sprintf("file %d: a change matches and cannot be carried out, Apply returned no error (output %s the input)", i, map[bool]string{true: "equals", false: "differs from"}[string(out) == f.src]), rep)
+			return
+		case !f.wantErr && err != nil:
+			res.Violate("C16/failure-without-fault/library", err.Error(), rep)
+			return
+		}
+	}
+}
+
 func runC16(ctx *core.Ctx, idx int) *core.Result {
 	res := &core.Result{}
+	if idx%10 == 5 {
+		c16LibraryProbe(ctx, res, idx)
+		if len(res.Viol) > 0 {
+			return res
+		}
+	}
 	ft := c16Faults(ctx.Tier)[idx]
 	if strings.HasPrefix(ft.Kind, "stdout-") {
 		return runC16Stdout(ctx, idx, ft)
@@ -418,7 +486,7 @@ func runC16(ctx *core.Ctx, idx int) *core.Result {
 	if idx%3 == 2 {
 		flags = []string{"--skip-import-processing"}
 	}
-	expectFailFile := "" // file that must be reported
+	expectFailFile := ""    // file that must be reported
 	nothingPatched := false // the patches cannot all be loaded: nothing may change
 	causeWords := []string{}
 	switch ft.Kind {
